@@ -858,6 +858,9 @@ class Inliner:
                     args = [a.id if isinstance(a, ast.Name) else None for a in call.args] + [k.value.id if isinstance(k.value, ast.Name) and k.arg else None for k in call.keywords]
                     if args != params or d.args.vararg or d.args.kwarg:
                         continue
+                    hdef = funcs[call.func.id]
+                    if len(hdef.args.args) + len(hdef.args.kwonlyargs) != len(params) or hdef.args.vararg or hdef.args.kwarg:
+                        continue          # H takes more than R hands on: a direct call of H may use what R cannot express
                     is_method = cname is not None and not any(isinstance(x, ast.Name) and x.id == 'staticmethod' for x in d.decorator_list)
                     fwd[(mname, call.func.id)] = (cname, d.name, is_method, d)
         if not fwd:
@@ -876,6 +879,8 @@ class Inliner:
                         continue
                     (hm, _), (cname, rname, is_method, rdef) = hits[0]
                     if fn is rdef or call.keywords or any(isinstance(a, ast.Starred) for a in call.args):
+                        continue
+                    if len(call.args) != len(rdef.args.args) + len(rdef.args.kwonlyargs):
                         continue
                     if is_method:
                         if not call.args or not _simple_arg(call.args[0]):
